@@ -128,6 +128,8 @@ type FnCtx struct {
 	// pointers wrapped into interface values (binary.Read(r, order, &x)): the engine-level pointer by MakeInterface
 	ifacePtrs map[ssa.Value]*PtrInfo
 	appendSites map[ssa.Instruction]int
+	storeSites  map[ssa.Instruction]int
+	stmtSites   map[ssa.Instruction]string
 	unrollTag string // suffix making obligation names unique inside unrolled loops
 	pureEval  bool   // evaluating the body of an opaque spec function: memory must not be read
 	assumeTag string
@@ -799,7 +801,7 @@ func (fx *FnCtx) handleLoop(li *loopInfo, incoming []*Edge, rets *[]retInfo) []*
 			fx.addObl(fx.prefix+":"+lname+".decreases", "decreases", reachB, cond, spec.Decreases.Props, spec.Decreases, "loop variant decreases and is bounded below: "+spec.Decreases.Src)
 		}
 	}
-	if spec.Decreases == nil && fx.fc != nil && (fx.fc.Decoder || fx.fc.Terminates) {
+	if spec.Decreases == nil && fx.fc != nil && (fx.fc.Decoder || fx.fc.Terminates) && !isSliceRangeLoop(li) {
 		fx.fail("loop %d needs a decreases clause (termination is claimed)", li.ord)
 	}
 	return res.exits
@@ -1014,4 +1016,52 @@ func (fx *FnCtx) val(v ssa.Value) Value {
 		fx.fail("value %s (%T) used before definition", v.Name(), v)
 	}
 	return x
+}
+
+// isSliceRangeLoop recognises the code go/ssa emits for "for i[, v] := range <slice, array or string
+// by index>": a hidden index that starts at -1, is incremented exactly once per iteration at the head
+// of the loop and compared with a length computed before the loop. Such a loop terminates by
+// construction (the index is not assignable), so no variant is demanded for it.
+func isSliceRangeLoop(li *loopInfo) bool {
+	var idx *ssa.Phi
+	for _, ins := range li.header.Instrs {
+		phi, ok := ins.(*ssa.Phi)
+		if !ok {
+			break
+		}
+		if phi.Comment == "rangeindex" {
+			idx = phi
+		}
+	}
+	if idx == nil {
+		return false
+	}
+	for _, ins := range li.header.Instrs {
+		iff, ok := ins.(*ssa.If)
+		if !ok {
+			continue
+		}
+		b, ok := iff.Cond.(*ssa.BinOp)
+		if !ok || b.Op != token.LSS {
+			return false
+		}
+		inc, ok := b.X.(*ssa.BinOp)
+		if !ok || inc.Op != token.ADD || inc.X != idx || inc.Block() != li.header {
+			return false
+		}
+		if c, ok := inc.Y.(*ssa.Const); !ok || c.Value == nil || c.Int64() != 1 {
+			return false
+		}
+		// every other edge of the phi carries the increment
+		for k, e := range idx.Edges {
+			if li.blocks[li.header.Preds[k]] && e != inc {
+				return false
+			}
+		}
+		if lv, ok := b.Y.(ssa.Instruction); ok && li.blocks[lv.Block()] {
+			return false
+		}
+		return true
+	}
+	return false
 }
